@@ -11,6 +11,13 @@ open SseClient Drv
           hb comma-separated naturals; raw empty, `S<code>` or `B<closes>:<codepoints>`
   →  `res=… last=… out=seq@idx,… reqs=c,c,…`
 `serve|c|statusDone|events|hb`  →  `status=204` or `stream closes=b body=codepoints`
+`live|maxR|c0|events|valid|conns`  the log grows: conns as above with a fourth field `vis:sd`
+  (that connection sees the first `vis` events; `sd` = the handler's status is terminal by then)
+  →  as `run`
+`lines|eof|chunks`  chunks `;`-separated `c<codepoints>` (zero or more)
+  →  `n=<count> l<codepoints>;l<codepoints>…` what `_iter_sse_lines` yields
+`int|codepoints`  →  `int=<n>` or `int=error` (Python `int(text)`)
+`cursor|n`  →  `text=<codepoints> back=<n>` (`str(n)` and `int` of it)
 -/
 namespace Drv.SseClient
 
@@ -56,6 +63,24 @@ def parseConn? (s : String) : Option Conn :=
     some { fault := f, hb := hb, raw := raw }
   | _ => none
 
+/-- `fault~hb~raw~vis:sd` -/
+def parseLiveConn? (es : List Ev) (s : String) : Option (Server × Conn) :=
+  match s.splitOn "~" with
+  | [f, hb, raw, snap] =>
+    match snap.splitOn ":" with
+    | [v, sd] => do
+      let f ← parseFault? f
+      let hb ← parseNats? hb
+      let raw ← parseRaw? raw
+      let v ← v.toNat?
+      let sd ← parseBool? sd
+      some ({ log := es.take v, statusDone := sd }, { fault := f, hb := hb, raw := raw })
+    | _ => none
+  | _ => none
+
+def parseChunk? (s : String) : Option (List Char) :=
+  if s.startsWith "c" then parseChars? (s.drop 1).toString else none
+
 def showRes : Res → String
   | .done => "done" | .pending => "pending" | .more => "more"
   | .errConn => "conn" | .errTimeout => "timeout" | .errParse => "parse"
@@ -99,6 +124,32 @@ def step (_ : Unit) (line : String) : Unit × String :=
       | .status code => ((), s!"status={code}")
       | .stream body cl => ((), s!"stream closes={if cl then 1 else 0} body={showChars body}")
     | _, _, _, _ => ((), "bad-op")
+  | ["live", maxR, c0, evs, valid, conns] =>
+    match parseMax? maxR, parseC0? c0, parseList? parseEv? evs, parseList? parseChars? valid with
+    | some m, some c, some es, some vs =>
+      match parseList? (parseLiveConn? es) conns with
+      | some script =>
+        let logP := es.map (·.payload)
+        let P : Params := { valid := fun d => logP.contains d || vs.contains d, brk := isBreak, maxR := m }
+        let (st, r) := runLive P { last := c } script
+        ((), s!"res={showRes r} last={st.last} out={",".intercalate (st.out.map (showItem logP vs))} " ++
+             s!"reqs={",".intercalate (st.reqs.map toString)}")
+      | none => ((), "bad-op")
+    | _, _, _, _ => ((), "bad-op")
+  | ["lines", eof, chunks] =>
+    match parseBool? eof, parseList? parseChunk? chunks with
+    | some e, some cs =>
+      let ls := chunkedLines isBreak e cs
+      ((), s!"n={ls.length} {";".intercalate (ls.map fun l => "l" ++ showChars l)}")
+    | _, _ => ((), "bad-op")
+  | ["int", t] =>
+    match parseChars? t with
+    | some cs => ((), match pyInt? cs with | some n => s!"int={n}" | none => "int=error")
+    | none => ((), "bad-op")
+  | ["cursor", n] =>
+    match n.toInt? with
+    | some n => ((), s!"text={showChars (pyStr n)} back={match pyInt? (pyStr n) with | some m => toString m | none => "error"}")
+    | none => ((), "bad-op")
   | _ => ((), "bad-op")
 
 end Drv.SseClient
